@@ -24,8 +24,30 @@ import (
 	"github.com/aergoio/aergo/v2/p2p/p2pcommon"
 	"github.com/aergoio/aergo/v2/p2p/p2putil"
 	v030 "github.com/aergoio/aergo/v2/p2p/v030"
+	"github.com/btcsuite/btcd/btcec/v2"
+	"time"
 	"github.com/aergoio/aergo/v2/types"
 )
+
+
+var (
+	vfAgentID, vfOtherID types.PeerID
+	vfBPIDs              [4]types.PeerID
+	vfBPKeys             [4]*btcec.PrivateKey
+)
+
+func init() {
+	mk := func() (*btcec.PrivateKey, types.PeerID) {
+		k, _ := btcec.NewPrivateKey()
+		id, _ := types.IDFromPublicKey(p2putil.ConvertPubToLibP2P(k.PubKey()))
+		return k, id
+	}
+	_, vfAgentID = mk()
+	_, vfOtherID = mk()
+	for i := range vfBPKeys {
+		vfBPKeys[i], vfBPIDs[i] = mk()
+	}
+}
 
 type vfChain struct {
 	V     int32  `json:"v"`
@@ -60,6 +82,38 @@ type vfStatus struct {
 	Role      int32    `json:"role"`
 	Producers []string `json:"producers"`
 	BadCert   bool     `json:"bad_cert"`
+	NoAddrs   bool     `json:"no_addrs"`  // leave Sender.Addresses empty (default: one multiaddr so that the 0.3.x fix-up is not involved)
+	// 2.0.0 role / certificate rule with real keys: peer ids "@agent"/"@other", producers "@bp0".."@bp3"
+	Certs []vfCertSpec `json:"certs"`
+}
+
+type vfCertSpec struct {
+	BP      int    `json:"bp"`      // signing producer key index
+	Agent   string `json:"agent"`   // "@agent" or "@other": the agent id the certificate is issued for
+	Tamper  bool   `json:"tamper"`  // flip a signature byte
+	Expired bool   `json:"expired"` // validity period in the past
+}
+
+type vfCertObs struct {
+	Valid bool   `json:"valid"` // by construction: signed by the producer key, in its validity period
+	Agent string `json:"agent"`
+	BP    string `json:"bp"`
+}
+
+type vfDecoded struct {
+	OK        bool     `json:"ok"`
+	ChainID   string   `json:"chain_id"`
+	BestHash  string   `json:"best_hash"`
+	Height    uint64   `json:"height"`
+	NilSender bool     `json:"nil_sender"`
+	Addr      string   `json:"addr"`
+	NAddrs    int      `json:"naddrs"`
+	Port      uint32   `json:"port"`
+	Peer      string   `json:"peer"`
+	Genesis   string   `json:"genesis"`
+	Role      int32    `json:"role"`
+	Producers []string `json:"producers"`
+	NCerts    int      `json:"ncerts"`
 }
 
 type vfHSCase struct {
@@ -72,6 +126,7 @@ type vfHSCase struct {
 	Keep       int    `json:"keep"`        // >0: keep only that many bytes of the frame
 	Cut        int    `json:"cut"`         // >0: drop that many bytes from the end of the frame
 	RawStream  string `json:"raw_stream"`  // if set: the inbound stream is exactly these bytes (hex); "-" = empty stream
+	PayloadRaw string `json:"payload_raw"` // if set: the frame's payload is exactly these bytes (hex) instead of the marshalled status; "-" = empty
 }
 
 type vfHSObs struct {
@@ -82,6 +137,16 @@ type vfHSObs struct {
 	ChainID  string `json:"chain_id"` // the status chain id bytes actually used
 	Stream   string `json:"stream"`   // the inbound byte stream actually used (frame modes)
 	MaxLen   uint32 `json:"maxlen"`   // p2pcommon.MaxPayloadLength in force
+	PeerUsed      string      `json:"peer_used"`      // status peer id actually used (hex)
+	LocalPeerUsed string      `json:"local_peer_used"`
+	ProducersUsed []string    `json:"producers_used"`
+	CertsUsed     []vfCertObs `json:"certs_used"`
+	Dec           *vfDecoded  `json:"dec,omitempty"` // payload_raw: what protobuf decoding of the payload gives
+	// what the handshaker reports about the remote peer after an accepted status ("-" = not available in this mode)
+	ResPeer string `json:"res_peer"`
+	ResHash string `json:"res_hash"`
+	ResNo   uint64 `json:"res_no"`
+	ResSet  bool   `json:"res_set"`
 	Panic    bool   `json:"panic"`
 }
 
@@ -120,14 +185,71 @@ func vfBuildStatus(s *vfStatus) (*types.Status, []byte) {
 	if !s.NilSender {
 		pa := &types.PeerAddress{Address: s.Addr, Port: 7846, PeerID: vfHex(s.Peer), Role: types.PeerRole(s.Role), Version: "v2.0.0"}
 		for _, p := range s.Producers {
-			pa.ProducerIDs = append(pa.ProducerIDs, vfHex(p))
+			pa.ProducerIDs = append(pa.ProducerIDs, vfPeerRef(p))
+		}
+		pa.PeerID = vfPeerRef(s.Peer)
+		if !s.NoAddrs {
+			pa.Addresses = []string{"/ip4/192.168.1.10/tcp/7846"}
 		}
 		st.Sender = pa
 	}
 	if s.BadCert {
 		st.Certificates = []*types.AgentCertificate{{CertVersion: 1, BPID: []byte{1, 2, 3}}}
 	}
+	for _, cs := range s.Certs {
+		ttl := time.Hour
+		if cs.Expired {
+			ttl = -time.Hour
+		}
+		c, err := p2putil.NewAgentCertV1(vfBPIDs[cs.BP], types.PeerID(vfPeerRef(cs.Agent)), vfBPKeys[cs.BP], []string{"192.168.1.10"}, ttl)
+		if err != nil {
+			panic(err)
+		}
+		pc, err := p2putil.ConvertCertToProto(c)
+		if err != nil {
+			panic(err)
+		}
+		if cs.Tamper {
+			pc.Signature[len(pc.Signature)-1] ^= 1
+		}
+		st.Certificates = append(st.Certificates, pc)
+	}
 	return st, cid
+}
+
+
+// vfPeerRef: "@agent", "@other", "@bp<i>" name real peer ids generated at start-up; anything else is hex.
+func vfPeerRef(s string) []byte {
+	switch {
+	case s == "@agent":
+		return []byte(vfAgentID)
+	case s == "@other":
+		return []byte(vfOtherID)
+	case len(s) == 4 && s[:3] == "@bp":
+		return []byte(vfBPIDs[int(s[3]-'0')])
+	}
+	return vfHex(s)
+}
+
+func vfDecode(payload []byte) *vfDecoded {
+	d := &vfDecoded{}
+	st := &types.Status{}
+	if err := p2putil.UnmarshalMessageBody(payload, st); err != nil {
+		return d
+	}
+	d.OK = true
+	d.ChainID, d.BestHash, d.Height = hex.EncodeToString(st.ChainID), hex.EncodeToString(st.BestBlockHash), st.BestHeight
+	d.Genesis, d.NCerts = hex.EncodeToString(st.Genesis), len(st.Certificates)
+	if st.Sender == nil {
+		d.NilSender = true
+		return d
+	}
+	d.Addr, d.NAddrs, d.Peer, d.Role = st.Sender.Address, len(st.Sender.Addresses), hex.EncodeToString(st.Sender.PeerID), int32(st.Sender.Role)
+	d.Port = st.Sender.Port
+	for _, p := range st.Sender.ProducerIDs {
+		d.Producers = append(d.Producers, hex.EncodeToString(p))
+	}
+	return d
 }
 
 var vfGoAwayClass = map[string]int{"malformed message": 20, "unexpected message type": 21, "malformed status message": 23, "wrong status": 1, "different chainID": 2, "wrong block hash": 3,
@@ -202,12 +324,31 @@ func TestVerifC18HS200Engine(t *testing.T) {
 			}()
 			st, cid := vfBuildStatus(&c.Status)
 			o.ChainID = hex.EncodeToString(cid)
+			o.LocalPeerUsed = hex.EncodeToString(vfPeerRef(c.Local.Peer))
+			if st.Sender != nil {
+				o.PeerUsed = hex.EncodeToString(st.Sender.PeerID)
+				for _, p := range st.Sender.ProducerIDs {
+					o.ProducersUsed = append(o.ProducersUsed, hex.EncodeToString(p))
+				}
+			}
+			for _, cs := range c.Status.Certs {
+				o.CertsUsed = append(o.CertsUsed, vfCertObs{Valid: !cs.Tamper && !cs.Expired, Agent: hex.EncodeToString(vfPeerRef(cs.Agent)),
+					BP: hex.EncodeToString([]byte(vfBPIDs[cs.BP]))})
+			}
 			var written bytes.Buffer
 			var input bytes.Buffer
 			if c.Mode == "recv" {
 				body, err := p2putil.MarshalMessageBody(st)
 				if err != nil {
 					panic(err)
+				}
+				if c.PayloadRaw == "-" {
+					body = []byte{}
+				} else if c.PayloadRaw != "" {
+					body = vfHex(c.PayloadRaw)
+				}
+				if c.PayloadRaw != "" {
+					o.Dec = vfDecode(body)
 				}
 				sp := p2pcommon.StatusRequest
 				if c.FrameProto != 0 {
@@ -233,7 +374,7 @@ func TestVerifC18HS200Engine(t *testing.T) {
 				o.Stream = hex.EncodeToString(input.Bytes())
 				o.MaxLen = p2pcommon.MaxPayloadLength
 			}
-			h := &V200Handshaker{vm: vfVM{c.Local}, logger: logger, peerID: types.PeerID(vfHex(c.Local.Peer)),
+			h := &V200Handshaker{vm: vfVM{c.Local}, logger: logger, peerID: types.PeerID(vfPeerRef(c.Local.Peer)),
 				localGenesisHash: vfHex(c.Local.Genesis)}
 			h.msgRW = v030.NewV030MsgPipe(vfRWC{&input, &written})
 			var hsErr error
@@ -247,6 +388,9 @@ func TestVerifC18HS200Engine(t *testing.T) {
 				hsErr = h.checkRemoteStatus(st)
 			}
 			vfClassify(&o, hsErr, vfLastGoAway(&written))
+			if hsErr == nil {
+				o.ResSet, o.ResPeer, o.ResHash, o.ResNo = true, hex.EncodeToString([]byte(h.remoteMeta.ID)), hex.EncodeToString(h.remoteHash[:]), h.remoteNo
+			}
 		}()
 		b, _ := json.Marshal(o)
 		fmt.Fprintln(w, string(b))
